@@ -825,7 +825,40 @@ inline CaseResult Execute(const Cell& cell, int cell_id, u64 idx, int pass, bool
       brief += "\n" + rep.substr(pos, e == std::string::npos ? std::string::npos : e - pos);
       pos = e == std::string::npos ? rep.size() : e;
     }
-    ctx.Fail("tsan-race", "C04", "%llu ThreadSanitizer report(s) during this case:\n%s", (unsigned long long)tsan,
+    // key by the first library frame of the first report (function name without template arguments)
+    std::string site = "unknown";
+    {
+      std::size_t lp = rep.find("/yaclib/");
+      if (lp != std::string::npos) {
+        std::size_t ls = rep.rfind('\n', lp);
+        ls = ls == std::string::npos ? 0 : ls + 1;
+        std::string line = rep.substr(ls, lp - ls);
+        std::size_t h = line.find('#');
+        std::size_t sp = h == std::string::npos ? std::string::npos : line.find(' ', h);
+        if (sp != std::string::npos) {
+          std::string fn = line.substr(sp + 1);
+          std::string out;
+          int depth = 0;
+          for (char ch : fn) {
+            if (ch == '<') {
+              depth++;
+            } else if (ch == '>') {
+              depth--;
+            } else if (depth == 0) {
+              if (ch == '(' || ch == ' ') {
+                break;
+              }
+              out.push_back(ch);
+            }
+          }
+          if (!out.empty()) {
+            site = out;
+          }
+        }
+      }
+    }
+    std::string oracle = "tsan-race@" + site;
+    ctx.Fail(oracle.c_str(), "C04", "%llu ThreadSanitizer report(s) during this case:\n%s", (unsigned long long)tsan,
              brief.c_str());
   }
 #endif
